@@ -134,8 +134,24 @@ def handle (args : List String) : String :=
     | some (proj, ord), some qs =>
       let s := run proj ord
       "ok bad=" ++ toString s.bad ++ " | " ++ dumpPd s ++ " | "
-        ++ " ".intercalate (qs.map fun q => showIdent (resolveIn s q.m q.cp q.name))
+        ++ " ".intercalate (qs.map fun q =>
+            match walk s.reg q.m q.cp with
+            | none => "NoScope"
+            | some i =>
+              match Names.expandName (finalEnv s) i q.name with
+              | none => "Crash"
+              | some _ => showIdent (resolveIn s q.m q.cp q.name))
     | _, _ => "bad-request"
+  | "wf" :: rest =>
+    -- `imports wf <project> O|<rank of every module>`: the components of `WF`
+    match parseProject (rest.length + 1) rest [] [] with
+    | some (proj, rank) =>
+      let b (x : Bool) : String := if x then "1" else "0"
+      "ok wf=" ++ b (WF proj rank) ++ " modules=" ++ b (modulesOk proj) ++ " paths=" ++ b (pathsUnique proj)
+        ++ " imports=" ++ b (importsOk proj rank) ++ " once=" ++ b (boundOnce proj rank)
+        ++ " nobases=" ++ b (noBases proj) ++ " nostarinclass=" ++ b (noStarInClass proj)
+        ++ " noreexport=" ++ b (noReexport proj) ++ " roots=" ++ b (rootsReserved proj)
+    | none => "bad-request"
   | _ => "bad-op"
 
 end Imports
